@@ -205,15 +205,70 @@ def _apply_kills(facts, dead):
             p = p.split("==", 1)[0]
         if f.startswith("ge:") or f.startswith("le:"):
             p = p.rsplit(":", 1)[0]
+        if f.startswith("imp:"):
+            b, g = f[4:].split("|", 1)
+            gp = g.split(":", 1)[1]
+            if any(x == d or x.startswith(d + ".") or x.startswith(d + "[") for d in dead for x in (b, gp)):
+                continue
+            out.add(f)
+            continue
+        if f.startswith("eng:") or f.startswith("dis:") or f.startswith("asg:"):
+            # writing *through* an engaged optional / non-null pointer (p.* ...) does not change its engagement
+            if any(p == d or p.startswith(d + ".") or p.startswith(d + "[") for d in dead):
+                continue
+            out.add(f)
+            continue
         if any(p == d or p.startswith(d + ".") or p.startswith(d + "[") or d.startswith(p + ".") for d in dead):
             continue
         out.add(f)
     return frozenset(out)
 
 
+OPTIONALISH = ("std::optional<", "tl::expected<")
+
+
+def _value_kind(callee):
+    """What a constructor / assignment of an optional-like object does, judged from the resolved overload:
+    'eng' (from a value), 'dis' (nullopt / default / unexpected) or None (copies another optional-like object)."""
+    if not callee:
+        return None
+    params = callee[callee.rfind("(") + 1:callee.rfind(")")] if "(" in callee else ""
+    params = params.strip()
+    if params == "":
+        return "dis" if callee.startswith("std::optional<") else None
+    if "nullopt_t" in params or "unexpected<" in params:
+        return "dis"
+    if "optional<" in params or "expected<" in params or "in_place" in params or "unexpect_t" in params:
+        return None
+    return "eng"
+
+
+def gen_facts(nodes):
+    """Engagement facts created by the statement itself (after its kills)."""
+    out = set()
+    for n in nodes:
+        if n.get("k") == "call" and n.get("method") and n.get("recv") is not None and \
+                (n.get("cls") or "").startswith(OPTIONALISH):
+            pth = X.path(n["recv"])
+            if not pth:
+                continue
+            if n.get("name") == "operator=":
+                out.add("asg:" + pth)
+                kind = _value_kind(n.get("callee"))
+                if kind:
+                    out.add("%s:%s" % (kind, pth))
+            elif n.get("name") == "emplace":
+                out.add("eng:" + pth)
+            elif n.get("name") == "reset":
+                out.add("dis:" + pth)
+    return out
+
+
 class MustFlow:
-    def __init__(self, f, alias=None):
+    def __init__(self, f, alias=None, post=None, entry=None):
         self.f = f
+        self.entry_facts = frozenset(entry or ())
+        self.post = post          # callee key -> {"ret_true": {param index,...}, "always": {...}} or None
         self.alias = alias or {}     # fact -> canonical fact (e.g. two predicates establishing the same thing)
         self.blocks = {b["id"]: b for b in f["blocks"]}
         self.preds = {}
@@ -235,8 +290,34 @@ class MustFlow:
         c = t.get("econd") if t.get("econd") is not None else t.get("cond")
         if c is not None:
             facts = _apply_kills(facts, kills(X.walk(c, local=True)))
+            cn = list(X.walk(c, local=True))
+            new = set(gen_facts(cn)) | self._call_posts(cn)
+            for n in cn:
+                if n.get("k") == "assign" and n.get("op") == "=":
+                    lp = X.path(n["lhs"])
+                    if lp:
+                        new |= self._implications(lp, n["rhs"])
             if when in ("true", "false"):
-                facts = frozenset(facts | set(self.alias.get(x, x) for x in atom_facts(c, when == "true")))
+                new |= self._atom(c, when == "true")
+                # if (f(x, ...)) with a promise on the true result
+                e0, neg = _neg(c)
+                if isinstance(e0, dict) and e0.get("k") == "assign":
+                    e0 = X.strip(e0["rhs"])
+                if self.post is not None and isinstance(e0, dict) and e0.get("k") == "call" and (when == "true") != neg:
+                    summ = self.post(e0.get("callee"))
+                    if summ:
+                        for i in summ.get("ret_true", ()):
+                            if i < len(e0.get("args", [])):
+                                ap = X.path(e0["args"][i])
+                                if ap:
+                                    new.add("eng:" + ap)
+            facts = set(facts) | set(self.alias.get(x, x) for x in new)
+            for x in list(facts):
+                if x.startswith("imp:"):
+                    b, g = x[4:].split("|", 1)
+                    if ("eng:" + b) in facts:
+                        facts.add(g)
+            facts = frozenset(facts)
         return facts
 
     def after_stmts(self, bid, upto, facts=None):
@@ -249,17 +330,130 @@ class MustFlow:
 
     def transfer_stmt(self, facts, s):
         nodes = list(X.stmt_nodes(s, local=True))
+        before = facts
         facts = _apply_kills(facts, kills(nodes))
-        # a declaration initialised from an engaged source does not create facts; a decl re-using an id kills
+        new = set(gen_facts(nodes))
         if s["k"] == "decl":
             for v in s["vars"]:
-                facts = _apply_kills(facts, {"L#%s:%s" % (v["id"], v["name"])})
-                # `T& r = *p` / optional initialised with a value: nothing
+                me = "L#%s:%s" % (v["id"], v["name"])
+                facts = _apply_kills(facts, {me})
+                init = v.get("init")
+                if isinstance(init, dict) and (v.get("ty") or "").replace("const ", "").startswith(("std::optional<", "tl::expected<", "ada::result<")):
+                    i0 = init
+                    while isinstance(i0, dict) and i0.get("k") == "cast":
+                        i0 = i0["e"]
+                    if isinstance(i0, dict) and i0.get("k") == "construct":
+                        kind = _value_kind(i0.get("callee"))
+                        if kind:
+                            new.add("%s:%s" % (kind, me))
+                if isinstance(init, dict) and self.post is not None:
+                    i0 = init
+                    while isinstance(i0, dict) and (i0.get("k") == "cast" or (i0.get("k") == "construct" and len(i0.get("args", [])) == 1)):
+                        i0 = i0["e"] if i0.get("k") == "cast" else i0["args"][0]
+                    if isinstance(i0, dict) and i0.get("k") == "call" and i0.get("callee"):
+                        summ = self.post(i0["callee"])
+                        if summ and summ.get("ret_fields_if"):
+                            idxs, fields = summ["ret_fields_if"]
+                            okargs = True
+                            for j in idxs:
+                                a = i0["args"][j] if j < len(i0.get("args", [])) else None
+                                while isinstance(a, dict) and a.get("k") == "cast":
+                                    a = a["e"]
+                                if isinstance(a, dict) and a.get("k") == "construct" and _value_kind(a.get("callee")) == "eng":
+                                    continue
+                                ap = X.path(a) if a is not None else None
+                                if ap and ("eng:" + ap) in before:
+                                    continue
+                                okargs = False
+                            if okargs:
+                                for fld in fields:
+                                    new.add("eng:%s.*.%s" % (me, fld))
+                if isinstance(init, dict) and v.get("ty") in ("bool", "const bool"):
+                    new |= self._implications(me, init)
+        for n in nodes:
+            if n.get("k") == "assign" and n.get("op") == "=":
+                lp = X.path(n["lhs"])
+                if lp:
+                    new |= self._implications(lp, n["rhs"])
+        new |= self._call_posts(nodes)
+        for n in nodes:
+            if n.get("k") == "call" and n.get("name") == "operator=" and n.get("recv") is not None and n.get("args") \
+                    and (n.get("cls") or "").startswith(OPTIONALISH) and _value_kind(n.get("callee")) is None:
+                a0 = n["args"][0]
+                moved = isinstance(a0, dict) and a0.get("k") == "call" and a0.get("qname") == "std::move"
+                sp, tp = X.path(a0), X.path(n["recv"])
+                if sp and tp and ("eng:" + sp) in before and (not moved or True):
+                    new.add("eng:" + tp)     # a moved-from optional stays engaged, and so does its copy
+        if new:
+            facts = frozenset(set(facts) | set(self.alias.get(x, x) for x in new))
         return facts
+
+    def _implications(self, boolpath, rhs):
+        """`b = f(x, ...)` where f promises `x engaged when it returns true`  ->  imp:b|eng:x ;
+        `b = A && B` -> what A and B imply when true."""
+        out = set()
+        r0 = X.strip(rhs)
+        if isinstance(r0, dict) and r0.get("k") == "bin" and r0.get("op") == "&&":
+            stack = [r0]
+            while stack:
+                x = X.strip(stack.pop())
+                if isinstance(x, dict) and x.get("k") == "bin" and x.get("op") == "&&":
+                    stack += [x["l"], x["r"]]
+                elif isinstance(x, dict):
+                    for g in self._atom(x, True):
+                        if g.startswith(("eng:", "size>=", "alt:")):
+                            out.add("imp:%s|%s" % (boolpath, g))
+            return out
+        if isinstance(r0, dict) and not (r0.get("k") == "call" and self.post is not None and self.post(r0.get("callee"))):
+            for g in self._atom(r0, True):
+                if g.startswith(("eng:", "size>=", "alt:")):
+                    out.add("imp:%s|%s" % (boolpath, g))
+        if self.post is None or not isinstance(r0, dict) or r0.get("k") != "call":
+            return out
+        summ = self.post(r0.get("callee"))
+        if not summ:
+            return out
+        for i in summ.get("ret_true", ()):
+            if i < len(r0.get("args", [])):
+                ap = X.path(r0["args"][i])
+                if ap:
+                    out.add("imp:%s|eng:%s" % (boolpath, ap))
+        return out
+
+    def _atom(self, c, truth):
+        """atom_facts plus predicate wrappers (`has_search()` = `query.has_value()`)."""
+        out = set(atom_facts(c, truth))
+        e0, neg = _neg(c)
+        t = truth != neg
+        if self.post is not None and isinstance(e0, dict) and e0.get("k") == "call" and e0.get("callee"):
+            summ = self.post(e0["callee"])
+            if summ and summ.get("pred") and t:
+                rp = "this" if e0.get("recv") is None else X.path(e0["recv"])
+                if rp:
+                    for g in summ["pred"]:
+                        kind, pth = g.split(":", 1)
+                        if pth == "this" or pth.startswith("this."):
+                            out.add("%s:%s%s" % (kind, rp, pth[4:]))
+        return out
+
+    def _call_posts(self, nodes):
+        out = set()
+        if self.post is None:
+            return out
+        for n in nodes:
+            if n.get("k") == "call" and n.get("callee"):
+                summ = self.post(n["callee"])
+                if summ:
+                    for i in summ.get("always", ()):
+                        if i < len(n.get("args", [])):
+                            ap = X.path(n["args"][i])
+                            if ap:
+                                out.add("eng:" + ap)
+        return out
 
     def _solve(self):
         entry = self.f["entry"]
-        self.IN = {entry: frozenset()}
+        self.IN = {entry: self.entry_facts}
         work = [entry]
         it = 0
         order = [b["id"] for b in self.f["blocks"]]
@@ -271,11 +465,29 @@ class MustFlow:
                 if bid == entry:
                     continue
                 acc = None
+                outs = []
                 for (p, when) in self.preds.get(bid, []):
                     o = self._out_edge(p, when)
                     if o is None:
                         continue
+                    if any(x.startswith("eng:") and ("dis:" + x[4:]) in o for x in o):
+                        continue        # contradictory facts: no execution takes this edge
+                    outs.append(o)
                     acc = o if acc is None else (acc & o)
+                if len(outs) == 2 and acc is not None:
+                    # a fact that holds on the side where B is engaged, while the other side has B disengaged,
+                    # survives the join as "B engaged implies F"
+                    extra = set()
+                    for a, b in ((outs[0], outs[1]), (outs[1], outs[0])):
+                        sel = [x[4:] for x in a if x.startswith("eng:") and ("dis:" + x[4:]) in b]
+                        if not sel:
+                            continue
+                        for fct in a - b:
+                            if fct.startswith(("eng:", "asg:")) and not any(fct == "eng:" + B for B in sel):
+                                for B in sel:
+                                    extra.add("imp:%s|%s" % (B, fct))
+                    if extra:
+                        acc = frozenset(acc | extra)
                 if acc is None:
                     continue
                 if self.IN.get(bid) != acc:
